@@ -365,7 +365,7 @@ func ctorLines(out *Out, caseID *int) {
 			*caseID++
 			var size, capacity int
 			var contents []int
-			cr := guarded(2*time.Second, func() {
+			cr := guarded(5*time.Second, func() {
 				switch via {
 				case "array":
 					q := col.Queue[int](notation).MakeFromArray(vs)
